@@ -334,7 +334,7 @@ type shadow struct {
 }
 
 func nodeIface(t types.Type) (*types.Named, *types.Interface) {
-	n, ok := t.(*types.Named)
+	n, ok := types.Unalias(t).(*types.Named)
 	if !ok || n.Obj().Pkg() == nil || n.Obj().Pkg().Path() != modPath+"/node" {
 		return nil, nil
 	}
